@@ -3,6 +3,7 @@ reference-model Wires object."""
 
 from __future__ import annotations
 
+import json
 import numpy as np
 
 from .refmodel import Wires, make_unitary
@@ -20,7 +21,7 @@ def _mval(x, values):
     return x
 
 
-def apply_real(c, op, params=None, cast=None, phase_cast=None):
+def apply_real(c, op, params=None, cast=None, phase_cast=None, cache=None):
     """Apply one op to the real circuit c; returns the (possibly new) circuit.
     cast: optional function applied to every mode argument (e.g. numpy.int64).
     phase_cast: optional function applied to plain-number phases of phase shifters (e.g. numpy.float32)."""
@@ -46,7 +47,10 @@ def apply_real(c, op, params=None, cast=None, phase_cast=None):
         c.barrier(None if op[1] is None else list(op[1]))
     elif k == "swaps":
         f_ = cast or int
-        c.mode_swaps({f_(a): f_(b) for a, b in op[1]})
+        d = {f_(a): f_(b) for a, b in op[1]}
+        c.mode_swaps(d)
+        if len(d) % 2 == 0:
+            d.clear()                                  # the caller recycles its dictionary afterwards
     elif k == "unitary":
         _, m, kind, kk, seed = op
         U = make_unitary(kind, kk, seed)
@@ -66,7 +70,15 @@ def apply_real(c, op, params=None, cast=None, phase_cast=None):
         else:
             c.herald(op[1], op[2], op[3])
     elif k == "add":
-        child = build_real(op[1], params, cast, phase_cast)
+        # the same sub-program appearing twice in one program is ONE circuit object added twice (a user re-using a
+        # building block); an addition must not change its argument, so this is equivalent to two fresh objects
+        key = json.dumps(op[1], sort_keys=True, default=str) if cache is not None else None
+        if key is not None and key in cache:
+            child = cache[key]
+        else:
+            child = build_real(op[1], params, cast, phase_cast, cache)
+            if key is not None:
+                cache[key] = child
         c.add(child, op[2], group=bool(op[3]), name=op[4])
     elif k == "plus":
         c = c + build_real(op[1], params, cast, phase_cast)
@@ -106,11 +118,13 @@ def make_gate(name, kwargs):
     return getattr(qubit, name)(**kw)
 
 
-def build_real(prog, params=None, cast=None, phase_cast=None):
+def build_real(prog, params=None, cast=None, phase_cast=None, cache=None):
     import lightworks as lw
+    if cache is None:
+        cache = {}
     c = lw.Circuit(prog["n"])
     for op in prog["ops"]:
-        c = apply_real(c, op, params, cast, phase_cast)
+        c = apply_real(c, op, params, cast, phase_cast, cache)
     return c
 
 
